@@ -14,6 +14,7 @@ import (
 	"github.com/superfly/litefs"
 	lfuse "github.com/superfly/litefs/fuse"
 	"github.com/superfly/litefs/internal"
+	"github.com/superfly/ltx"
 )
 
 func init() {
@@ -148,12 +149,15 @@ type CacheSim struct {
 	// (the kernel refused the notification).
 	Fail  func(kind string) error
 	OnPos func(db *litefs.DB)
+	// Eager: a reader re-reads every dropped page at the moment of the invalidation (see refill)
+	Eager bool
+	pos   map[string]ltx.Pos
 	// Entries counts InvalidateEntry calls by name.
 	Entries map[string]int
 }
 
 func newCacheSim() *CacheSim {
-	return &CacheSim{pages: map[string]map[int64][]byte{}, Entries: map[string]int{}}
+	return &CacheSim{pages: map[string]map[int64][]byte{}, Entries: map[string]int{}, pos: map[string]ltx.Pos{}, Eager: os.Getenv("VERIF_CACHE_LAZY") == ""}
 }
 
 func (c *CacheSim) InvalidateDB(db *litefs.DB) error {
@@ -163,9 +167,42 @@ func (c *CacheSim) InvalidateDB(db *litefs.DB) error {
 		}
 	}
 	c.mu.Lock()
+	old := c.pages[db.Name()]
 	delete(c.pages, db.Name())
 	c.mu.Unlock()
+	c.refill(db, old)
 	return nil
+}
+
+// refill plays a reader that is faster than LiteFS: every page the kernel has just dropped is read again at
+// once, from the file as it is at this moment (an application with the file open - a copy, a polling monitor,
+// SQLite's header read - can always do that). When LiteFS invalidates AFTER the new bytes are in place this
+// caches the new bytes; when it invalidates first and writes afterwards, the old bytes are back in the cache
+// and nothing drops them again.
+func (c *CacheSim) refill(db *litefs.DB, old map[int64][]byte) {
+	if !c.Eager || len(old) == 0 {
+		return
+	}
+	f, err := os.Open(db.DatabasePath())
+	if err != nil {
+		return
+	}
+	defer f.Close()
+	for off, b := range old {
+		nb := make([]byte, len(b))
+		if n, _ := f.ReadAt(nb, off); n == len(nb) {
+			c.put(db.Name(), off, nb)
+		}
+	}
+}
+
+// CachedPos is what an application that keeps the position file open and polls it reads: the position at the
+// moment of the last invalidation of that file (zero value before the first one).
+func (c *CacheSim) CachedPos(name string) (ltx.Pos, bool) {
+	c.mu.Lock()
+	defer c.mu.Unlock()
+	p, ok := c.pos[name]
+	return p, ok
 }
 func (c *CacheSim) InvalidateDBRange(db *litefs.DB, offset, size int64) error {
 	if f := c.Fail; f != nil {
@@ -174,12 +211,15 @@ func (c *CacheSim) InvalidateDBRange(db *litefs.DB, offset, size int64) error {
 		}
 	}
 	c.mu.Lock()
+	old := map[int64][]byte{}
 	for off, b := range c.pages[db.Name()] {
 		if off < offset+size && offset < off+int64(len(b)) {
+			old[off] = b
 			delete(c.pages[db.Name()], off)
 		}
 	}
 	c.mu.Unlock()
+	c.refill(db, old)
 	return nil
 }
 
@@ -201,6 +241,11 @@ func (c *CacheSim) InvalidatePos(db *litefs.DB) error {
 		if err := f("pos"); err != nil {
 			return err
 		}
+	}
+	if c.Eager {
+		c.mu.Lock()
+		c.pos[db.Name()] = db.Pos()
+		c.mu.Unlock()
 	}
 	if f := c.OnPos; f != nil {
 		f(db)
